@@ -224,7 +224,8 @@ Pending(m, l) == {id \in DOMAIN m.st : m.st[id].lg = l /\ \E sname \in Range(m.s
 \* remove_logger_blocking returns only after the removal completed: the registry no longer counts the logger and
 \* everything logged through it before has been written
 ERemoveBlockingRet(m, e) ==
-  LET m1 == Check(m, "ok17", e.n = Cardinality(Present(m)) - 1 /\ Pending(m, e.lg) = {},
+  LET still == m.lg[e.lg].present        \* not yet seen gone through an earlier count observation
+      m1 == Check(m, "ok17", e.n = Cardinality(Present(m)) - (IF still THEN 1 ELSE 0) /\ Pending(m, e.lg) = {},
                   "remove_logger_blocking returned before the removal completed") IN
   [m1 EXCEPT !.lg[e.lg].present = FALSE]
 \* get_number_of_loggers(): invalidated loggers disappear (all at once in the driver's scripts) only when drained
